@@ -310,6 +310,66 @@ def nontrivial_pn(case, out):
     return len(out) > 7 and out[2] == 1 and out[6] > 50
 
 
+def _pn_check(v, extra_us):
+    """python mirror of the e2e_pn monitor; extra_us(srtt, cwnd) is added to max_ack_delay + 5 ms.
+    returns (incr_ok, ranges_ok, timely_ok)"""
+    endt, mad = v[3], v[4]
+    rows = [v[7 + 8 * i:13 + 8 * i] for i in range(v[6])]
+    incr_ok = ranges_ok = timely_ok = True
+    for ep in (0, 1):
+        for sp in (0, 1, 2):
+            last, proc = -1, set()
+            for r in rows:
+                if r[:3] == [0, ep, sp]:
+                    incr_ok &= last < r[3]
+                    last = r[3]
+                elif r[:3] == [1, ep, sp]:
+                    proc.add(r[3])
+                elif r[:3] == [2, ep, sp]:
+                    ranges_ok &= r[3] <= r[4] and all(x in proc for x in range(r[3], r[4] + 1))
+        pend, largest, srtt, cwnd, closed = [], -1, 333000, 12000, False
+        for r in rows:
+            if any(r[5] > d for (_, d) in pend):
+                timely_ok = False
+                pend = [q for q in pend if r[5] <= q[1]]
+            if r[0] == 4 and r[1] == ep:
+                closed = True
+                break
+            if r[0] == 5 and r[1] == ep:
+                cwnd, srtt = max(1, r[3]), r[4]
+            if r[:3] == [2, ep, 2]:
+                pend = [q for q in pend if not (r[3] <= q[0] <= r[4])]
+            if r[:3] == [1, ep, 2]:
+                if r[4] == 1 and largest < r[3]:
+                    pend.append((r[3], r[5] + mad + 5000 + extra_us(srtt, cwnd)))
+                largest = max(largest, r[3])
+        if not closed and any(endt > d for (_, d) in pend):
+            timely_ok = False
+    return incr_ok, ranges_ok, timely_ok
+
+
+def classify_pn(p):
+    """known classes of e2e_pn judge failures (None = not known)"""
+    try:
+        if p.get("component") != "e2e_pn":
+            return None
+        c, o = p["case"], p["impl"]
+        if o.startswith("!panic Initial ID") and "was already in the map" in o and len(c) > 1 and c[1] >= 1:
+            return "initial_id_already_in_map_after_retry"
+        if o.startswith("!"):
+            return None
+        v = _parse(o)
+        strict = _pn_check(v, lambda srtt, cwnd: 0)
+        # the pacer's interval is MAX_BURST_PACKETS (10) datagrams at 1.25..2 x cwnd / srtt: up to
+        # 10 * mds * srtt / cwnd; twice that (the values move while the packet waits), at least 50 ms
+        loose = _pn_check(v, lambda srtt, cwnd: max(50000, 2 * 15000 * srtt // cwnd))
+        if strict[0] and strict[1] and not strict[2] and loose[2]:
+            return "ack_only_packets_paced"
+        return None
+    except Exception:
+        return None
+
+
 def hist_pn(cases, outs):
     h = {"with_retry": 0, "connected": 0, "capped": 0, "rows": 0, "ack_ranges": 0}
     for c, o in zip(cases, outs):
@@ -394,6 +454,7 @@ E2E_COMPONENTS = {
         "gen": gen_pn, "fixed": fixed_pn, "quick": 50, "thorough": 800,
         "shard_lines": 1, "line_timeout": 300,
         "valid": valid_pn, "nontrivial": nontrivial_pn, "histogram": hist_pn,
+        "classify": classify_pn,
     },
     "e2e_inject": {
         "name": "e2e_inject", "harness": ("h_e2e", "E2E"), "ocaml": "E2E", "model": False,
@@ -447,3 +508,22 @@ registry.register("E2E", {
                      "harness/h_e2e/src/bin/E2E.rs (trace recording), s2n-quic testing IO provider (bach executor)"],
     "explanation": "Coq-extracted boolean monitors (the property texts of C01/C02/C03/C12, C11, C06 on integer traces) proved sound against Prop-level statements; traces come from real endpoints on the deterministic simulated network",
 })
+
+
+# developer registration of the phase-2 components (tools/props_zz_attach.py pops "E2E"):
+#   VERIF_E2E_DEV=1 ./check E2EX        (also works under tools/mutcheck)
+import os as _os
+if _os.environ.get("VERIF_E2E_DEV"):
+    def _classify_dev(p):
+        for f in (classify_pn, classify_e2e):
+            r = f(p)
+            if r:
+                return r
+        return None
+    registry.register("E2EX", {
+        "gen": ["E2E"], "props_file": "props/E2E.v", "extract_target": "extract/Ex_E2E.vo",
+        "harness": "h_e2e", "harness_bin": "E2E", "axioms_allowed": [], "classify": _classify_dev,
+        "components": [E2E_COMPONENTS[k] for k in _os.environ.get("VERIF_E2E_DEV_COMPS", "e2e_pn").split(",") if k in E2E_COMPONENTS],
+        "rule": "developer run of the phase-2 end-to-end components", "assumptions": [], "trusted_base": [],
+        "explanation": "developer run",
+    })
